@@ -87,7 +87,7 @@ for crit in (GINI, ENT):
                 for mid_e6 in (10, 125000, 500000):
                     thorough.append(t(secs=300, n=4, d=1, classes=2, crit=crit, depth=depth, mws4=mws4, mwl4=mwl4, mid_e6=mid_e6))
 thorough.append(t(secs=1800, jobs=16, n=4, d=1, classes=2, wpat=-2, wmax=3))
-thorough.append(t(secs=900, jobs=16, n=5, d=1, classes=3, distinct=1, wpat=-2, wmax=2))
+thorough.append(t(secs=1800, jobs=16, n=5, d=1, classes=2, distinct=1, wpat=-2, wmax=2))
 # larger coordinate bound (slow refutations, see module doc)
 thorough.append(t(secs=300, jobs=2, qto=30000, n=3, d=1, classes=2, B=64))
 thorough.append(t(secs=600, jobs=4, qto=60000, n=3, d=1, classes=2, B=256))
